@@ -469,6 +469,21 @@ func vfC17Do(t *testing.T, s *vfutil.Session, c *vfC17Case, tag int, src string)
 	if c.kind == "g" {
 		vfC17GcSpare(s, c, run)
 	}
+	// whatever the state (also the ones the preconditions exclude): an operation must not turn "no
+	// readable position" (e.g. an _offset field without its _runid field: GetCheckpoint answers run id
+	// "?") into a position — a start would then continue the stream from an offset nobody vouches for,
+	// in a database it was not written in. Offset -1 (the placeholder of a new key) is no position.
+	if c.kind == "u" && !err0 && !p0.ok && len(c.ids) == 2 && c.ids[0] != c.ids[1] {
+		for k := 1; k < len(run.sp); k++ {
+			pk, errk := vfParsePos(run.sp[k])
+			if !errk && pk.ok && pk.off >= 0 {
+				s.Violate("update-invents-position", fmt.Sprintf("no readable position before (%s); after request #%d (%s) a start reads %s [%s]", run.sp[0], k, run.lines[k-1], run.sp[k], why),
+					map[string]interface{}{"op": run.op, "crash_after_request": k, "after": run.sp[k]})
+				break
+			}
+		}
+		s.Count("no_position_checked")
+	}
 	if c.kind == "u" && sane && !err0 && p0.ok {
 		// what the next start really does (syncer.updateCheckpoint + RedisOutput.StartPoint): order the
 		// ids by the hash, run UpdateCheckpoint(local) TO COMPLETION on the crash state, read under LOCAL
